@@ -236,3 +236,18 @@ impl Read for ChunkedSend {
         Ok(n)
     }
 }
+
+impl Seek for ChunkedSend {
+    fn seek(&mut self, to: SeekFrom) -> io::Result<u64> {
+        let target = match to {
+            SeekFrom::Start(o) => o as i64,
+            SeekFrom::Current(d) => self.pos as i64 + d,
+            SeekFrom::End(d) => self.data.len() as i64 + d,
+        };
+        if target < 0 {
+            return Err(io::Error::new(io::ErrorKind::InvalidInput, "negative seek"));
+        }
+        self.pos = (target as usize).min(self.data.len());
+        Ok(self.pos as u64)
+    }
+}
